@@ -146,6 +146,7 @@ def game_hash(g):
 
 REENTRANT_EVERY = int(os.environ.get("VERIF_REENTRANT_EVERY", "6"))
 REENTRANT_STATS = {"calls": 0}
+INTERLEAVE_FAILURES = []      # drained by the runner: (text, game)
 
 
 def nested_game(g):
@@ -179,19 +180,45 @@ def call_rate(model, teams, g, reentrant=None):
     orig = model.gamma
     state = {"n": 0, "at": 1 + game_hash(g) // 7 % 3, "busy": False}
 
+    # the interleaved call omits tau / limit_sigma half of the time (then it must see the MODEL's settings, not the
+    # outer call's per-call values); its own result is verified against the same call on a fresh model
+    nt, nr = nested_game(g)
+    nkw = dict(ranks=nr)
+    if game_hash(g) // 5 % 2:
+        nkw.update(tau=g["beta"] / 7, limit_sigma=not g["ls"])
+    ref_model = type(model)(beta=g["beta"], kappa=g["kappa"], tau=g["tau"], limit_sigma=g["ls"])
+    ref_model.gamma = orig
+    expected = [[(p.mu, p.sigma) for p in t]
+                for t in ref_model.rate([[ref_model.rating(mu=m, sigma=s) for (m, s) in t] for t in nt], **dict(nkw, ranks=list(nr)))]
+
     def cb(c, k, mu, s2, team, rank):
         state["n"] += 1
         if state["n"] == state["at"] and not state["busy"]:
             state["busy"] = True
-            nt, nr = nested_game(g)
             inner = [[model.rating(mu=m, sigma=s) for (m, s) in t] for t in nt]
-            model.rate(inner, ranks=nr, tau=g["beta"] / 7, limit_sigma=not g["ls"])
+            model.gamma = orig
+            try:
+                got = [[(p.mu, p.sigma) for p in t] for t in model.rate(inner, **dict(nkw, ranks=list(nr)))]
+            finally:
+                model.gamma = cb
+            if got != expected:
+                INTERLEAVE_FAILURES.append((
+                    "a rate() call (tau/limit_sigma %s) made on the same model while another rate() call was in progress "
+                    "returned %r, on a fresh model %r" % ("omitted" if "tau" not in nkw else "given", first_pair(got, expected), None), g))
         return orig(c, k, mu, s2, team, rank)
     model.gamma = cb
     try:
         return model.rate(teams, **kw)
     finally:
         model.gamma = orig
+
+
+def first_pair(a, b):
+    for ta, tb in zip(a, b):
+        for x, y in zip(ta, tb):
+            if x != y:
+                return (x, y)
+    return None
 
 
 def run_impl_rate(g, cls=None):
